@@ -15,7 +15,7 @@ from harness.util import call, req, fmt
 
 PID = "C16"
 LEVEL = "exploration"
-RULE = ("Hypothesis draws (T<=3) rasters from 1x1 to ~60x60 with 1..40 zones (incl. empty zones and zone-nodata), nodata/NaN share "
+RULE = ("Hypothesis draws (T<=3) rasters from 1x1 to ~60x60 with 1..40 zones (incl. empty zones; zone rasters dense, with holes, sparse single pixels, anti-diagonal strips or patches with a tip, the rest carrying the zone nodata), nodata/NaN share "
         "0..100 %, int16/float32/float64 values, output dtype float32/float64, numpy and dask (time-chunked) inputs, and pixel "
         "permutations that keep (value, zone) pairs together; plus structured large rasters (one zone of 2^24+10 pixels in quick, up to "
         "5000x6000 = 3e7 pixels and 1000 zones in thorough) whose exact sums are known in closed form. Oracle: exact integer sums / "
@@ -166,9 +166,9 @@ def raster(draw, accessor=False):
     if draw(st.integers(0, 5)) == 0:
         Y, X = draw(st.integers(20, 60)), draw(st.integers(20, 60))
     nz = draw(st.integers(1, 40))
-    dt = draw(st.sampled_from(["int16", "float32", "float64"]))
+    dt = draw(st.sampled_from(["int16", "float32", "float64", "int32"] if accessor else ["int16", "float32", "float64"]))
     n = T * Y * X
-    kind = draw(st.sampled_from(["ints", "ints", "level", "floats"])) if dt != "int16" else draw(st.sampled_from(["ints", "level"]))
+    kind = draw(st.sampled_from(["ints", "ints", "level", "floats"])) if dt not in ("int16", "int32") else draw(st.sampled_from(["ints", "level"]))
     if kind == "ints":
         vals = draw(st.lists(st.integers(-10000, 10000), min_size=n, max_size=n))
     elif kind == "level":
@@ -182,14 +182,30 @@ def raster(draw, accessor=False):
     used = draw(st.integers(1, nz))
     znd = draw(st.sampled_from([-1, -1, 0, nz - 1, 255]))
     zones = draw(st.lists(st.integers(0, used - 1) if draw(st.booleans()) else st.sampled_from([0, used - 1]), min_size=Y * X, max_size=Y * X))
-    if znd == 255 and draw(st.booleans()):
-        # pixels outside every zone carry the zone raster's nodata value
-        zones = [255 if draw(st.integers(0, 3)) == 0 else z for z in zones]
+    zpat = "dense"
+    if znd in (255, -1):
+        zpat = draw(st.sampled_from(["dense", "holes", "sparse", "antidiagonal", "patch_with_tip"]))
+        # pixels outside every zone carry the zone raster's nodata value (zones usually cover only part of a raster)
+        if zpat == "holes":
+            zones = [znd if draw(st.integers(0, 3)) == 0 else z for z in zones]
+        elif zpat == "sparse":
+            k = draw(st.integers(1, 3))
+            keep = draw(st.lists(st.integers(0, Y * X - 1), min_size=min(k, Y * X), max_size=min(k, Y * X), unique=True))
+            zones = [z if i in keep else znd for i, z in enumerate(zones)]
+        elif zpat == "antidiagonal":
+            zones = [z if (i // X) + (i % X) == min(Y, X) - 1 else znd for i, z in enumerate(zones)]
+        elif zpat == "patch_with_tip" and Y >= 3 and X >= 3:
+            r0, c0 = draw(st.integers(1, Y - 2)), draw(st.integers(0, X - 3))
+            inside = lambda r, c: (r0 <= r and c0 <= c <= X - 2) or (r == r0 - 1 and c == X - 1)  # noqa: E731
+            zones = [z if inside(i // X, i % X) else znd for i, z in enumerate(zones)]
     nd = draw(st.sampled_from([-9999, -32768, 0] if kind != "floats" else [-9999, -32768]))
+    if accessor and dt in ("float64", "int32") and draw(st.booleans()):
+        # nodata values that a narrower float type cannot represent exactly
+        nd = draw(st.sampled_from([-9999.9, 1e20, -3.4e38] if dt == "float64" else [2147483647, -2147483647, 16777217]))
     if nd == 0:
         ok = [o and v != 0 for o, v in zip(ok, vals)]
     case = {"shape": [T, Y, X], "pixels": vals, "ok": ok, "zones": zones, "nz": max(nz, 1), "znodata": znd, "nodata": nd, "dtype": dt,
-            "out_dtype": draw(st.sampled_from(["float32", "float64"])), "kind": kind, "share": share}
+            "out_dtype": draw(st.sampled_from(["float32", "float64"])), "kind": kind, "share": share, "zpat": zpat}
     if znd == 255:
         case["nz"] = nz  # 255 never indexes a zone because it is skipped
     if accessor:
@@ -211,13 +227,13 @@ def run(ctx):
     def f_k(case):
         rec.case("kernel", {k: v for k, v in case.items() if k != "perm"}, nontrivial=nontrivial(case),
                  cls=["dtype:" + case["dtype"], "out:" + case["out_dtype"], "kind:" + case["kind"], "nodata_share:%d" % case["share"],
-                      "znodata:%d" % case["znodata"]])
+                      "znodata:%d" % case["znodata"], "zones:" + case["zpat"]])
         sub_kernel(case)
 
     ctx.given("kernel", raster(), ctx.n(400, 5000), fn=f_k)
 
     def f_a(case):
-        rec.case("accessor", case, nontrivial=nontrivial(case), cls=["dask" if case["dask"] else "numpy", "dtype:" + case["dtype"], "out:" + case["out_dtype"]])
+        rec.case("accessor", case, nontrivial=nontrivial(case), cls=["dask" if case["dask"] else "numpy", "dtype:" + case["dtype"], "out:" + case["out_dtype"], "zones:" + case["zpat"]])
         sub_accessor(case)
 
     ctx.given("accessor", raster(accessor=True), ctx.n(200, 3000), fn=f_a)
